@@ -231,3 +231,33 @@ claim("C09",
            "splitter then re-sorts (the proved invariant is relative to the order given to init).",
       technique="deductive verification of mechanically extracted Cython text (loop invariants over ghost range sums, Lean-checked lemma schemas, z3) and of "
                 "the Python side; 'mselin' by bounded enumeration")
+
+
+# ---- amendments after the third round of seeds (DESIGN.md 11.8): what was added to each claim
+def amend(pid, text="", note=""):
+    CLAIMED[pid]["text"] += (" " + text) if text else ""
+    CLAIMED[pid]["note"] += (" " + note) if note else ""
+
+
+amend("C01", text="Every constructor stores a user-chosen number unconverted (scikit-learn's clone refuses anything else); SkBaseTransformLearner.set_params re-binds the "
+                  "method to a NEW model also when the method given is the one it already has. Bounded: clone after set_params(p=numpy.float64), behaviour of the instance "
+                  "itself after the round trip.")
+amend("C02", text="The label permutation applied to the caller's targets by TransformedTarget*2.fit writes neither features nor targets (frame clause of "
+                  "PermutationReciprocalTransformer.transform, every permutation of 2 and 3 labels); PiecewiseEstimator.fit: an integer random_state - 0 included - "
+                  "seeds the generator of the fit and nothing is drawn from numpy's global generator.")
+amend("C03", text="PiecewiseEstimator.fit with an integer random_state (any integer, 0 included): the fit's generator is RandomState(random_state), never the global one.")
+amend("C06", text="_init_centroids is proved (with at least k points, k == n included, it never raises and returns k centres of the data's dimension: k-means++ "
+                  "seeding assumed, k random rows, or the given array) and so is _tolerance (L1): the only assumed in-repo step of the L1 fit is the k-means++ seeding _k_init.")
+amend("C08", text="Frame of the queries: transform_bins / predict / predict_proba leave the estimator with exactly the attributes it had (no state kept between calls).")
+amend("C09", text="_predict_reglin also for integer-valued batches (evaluated like the same real numbers).")
+amend("C10", text="enumerate_leaves_index (recursive generator) on five tree shapes, complete in the node indices: every node lacking a side, once, parents first.")
+amend("C12", text="tree_node_parents is proved UNBOUNDED in the number of nodes and for any numbering (dictionary of symbolic size, loop invariant): every child is "
+                  "sent to its parent (+ left, - right) and the table holds nothing else.")
+amend("C13", text="_common_get_transform: a new transformer for a name, a FRESH clone for a transformer object (never the caller's object), TypeError otherwise.")
+amend("C14", text="The delegation of _word_ngrams is proved for ngram_range (1,1), (1,2), (2,3).")
+amend("C16", text="_pipeline_info on five Pipeline / FeatureUnion shapes x 1..2 input columns (symbolic node names): every input of a node is a column or an output "
+                  "of an earlier node, union members are parallel, the union node collects one output of each; alter_pipeline_for_debugging wraps EVERY output method "
+                  "(decision_function included).")
+amend("C18", text="non_linear_correlations never returns NaN, also when the Pearson matrix the accumulators are shaped after holds NaN (constant columns).")
+amend("C20", text="ts_mape also for forecasts with missing (NaN) entries anywhere - numpy.ma masked sums modelled - the naive forecast being 'the previous value "
+                  "where there is a forecast'; precondition: at least one step is scored.")
